@@ -429,6 +429,16 @@ class Struct(metaclass=MetaStruct):
 
     def __setstate__(self, state):
         self._buffer, self._offset = state
+        # the cached field offsets and size are not part of the state:
+        # read them again from the buffer, as _from_buffer does
+        self._offsets = {
+            field.index: Int64._from_buffer(
+                self._buffer, self._offset + field.offset
+            )
+            for field in self._d_fields
+        }
+        self._size = self._get_size()
+        self._post_init()
 
     @classmethod
     def _gen_data_paths(cls, base=None):
